@@ -56,7 +56,8 @@ class Sources:
                 raise AnalysisError(f"{rel} does not parse: {e}") from e
             if os.environ.get("AUREL_NO_CANON") != "1":
                 from . import canon
-                tree = canon.canonicalise(tree, self._signatures())
+                sigs = self._signatures()
+                tree = canon.canonicalise(tree, sigs, getattr(self, "_pkg_methods", None))
                 try:        # the canonical form must still be a program
                     compile(tree, rel, "exec")
                 except (SyntaxError, ValueError, TypeError) as e:
@@ -82,6 +83,7 @@ class Sources:
                 except (SyntaxError, OSError):
                     continue
             self._sigs = canon._signatures(trees)
+            self._pkg_methods = canon._package_private_methods(trees)
         return self._sigs
 
     def yaml(self, rel):
